@@ -11,14 +11,14 @@ TECH = {
  "C02": "static analysis (custom MIR rules): who-may-call on quinn stream opens, value-origin dataflow (same stream halves), dominance/cycle checks (single dispatch, no retry loop), type-shape ownership, sibling path-event words of the four codecs, who-may-mutate message content on the transport path (mutators classified from method signatures), pure-delegation shape of the SendStream AsyncWrite impl, return-value shape of every Layer::layer of the crate (wraps the inner it is given)",
  "C03": "static analysis (custom MIR rules): decision words of the dial task, value-origin dataflow of the expected id into the rustls verifier, path-event language of verify_server_cert and wire::handshake, who-may-call registration, dominance (register before reply), must-pass-through registration in add_peer, certificate-to-PeerId origin (leaf certificate), path-event words of add() (an Ok reply implies an entry), must-pass-through of the ConnectRequest in the connect API, proof-of-possession rules of the pinned verifier",
  "C04": "static analysis (custom MIR rules): who-may-write the peer map / who-may-call event emission, the write lock and Connection::close, path-event language of the three mutators (exact word sets), value-origin dataflow of keys and event payloads, lock-acquisition multiplicity on the inlined view of subscribe(), must-pass-through of the handler-exit removal with no suspension point between loop exit and removal",
- "C05": "static analysis (custom MIR rules): decision-table extraction from the tie-break CFG + exhaustive enumeration of the 8 abstract order cases, value-origin dataflow of call arguments and origin tags, must-pass-through registration (no shortcut around the tie-break), stable-id guard words of the loser's clean-up, who-may-call on dial_peer (closed set of dial sources), panic inventory of the handler's exit region",
- "C06": "static analysis (custom MIR rules): call-graph panic-site inventory from remote-driven entry points with re-checked justifications, tokio::select! arm words (sticky error values leave the loop), who-may-call close(), panic inventory of the typed-RPC layer and of the connection manager (justifications re-checked)",
+ "C05": "static analysis (custom MIR rules): decision-table extraction from the tie-break CFG + exhaustive enumeration of the 8 abstract order cases, value-origin dataflow of call arguments and origin tags, must-pass-through registration (no shortcut around the tie-break), stable-id guard words of the loser's clean-up, who-may-call on dial_peer (closed set of dial sources), panic inventory of the handler's exit region, panic inventory of the peer-map code run at handler exit (re-evaluated), cancel-safety of the manager's join arms (re-evaluated)",
+ "C06": "static analysis (custom MIR rules): call-graph panic-site inventory from remote-driven entry points with re-checked justifications, tokio::select! arm words (sticky error values leave the loop), who-may-call close(), panic inventory of the typed-RPC layer and of the connection manager (justifications re-checked), no suspension point in a select! arm body that continues the handler loop, select! arm preconditions",
  "C07": "static analysis (custom MIR rules): byte-map reconstruction of the preamble writer, edge-guarded reader words, constant/callee checks on the frame codec, sibling path-event words of encoder/decoder, closed decision tables for Version/StatusCode, type shape of raw headers, serde helper attributes read from the definitions' source lines + hook-wrapper types of the derived impls, panic inventory of the decoders (constant-index justifications re-checked)",
  "C08": "static analysis (custom MIR rules): dominance order of teardown steps, tokio::select! arm words (sticky terminal values), API error-propagation dataflow, type-shape ownership, call-graph panic-site inventory, ms-unit discipline of Config accessors, ownership liveness across suspension points (strong peer map / service clones held at a yield), closed-world who-may-call on task spawning, must-pass-through of the request-task shutdown at handler exit, type-shape rule on socket handles, select! arm preconditions (none on the manager loop)",
- "C09": "static analysis (custom MIR rules): value-origin dataflow (disconnect reason, transport config on every ClientConfig site), RAII liveness of a rejected connection, must-pass-through at handler exit, decision table of from_quinn_error, path-event words of the tie-break (loser closed explicitly), join-arm words of the manager loop (handler failure propagates)",
+ "C09": "static analysis (custom MIR rules): value-origin dataflow (disconnect reason, transport config on every ClientConfig site), RAII liveness of a rejected connection, must-pass-through at handler exit, decision table of from_quinn_error, path-event words of the tie-break (loser closed explicitly), join-arm words of the manager loop (handler failure propagates), value identity of the config the transport setter ran on (it is what is returned)",
  "C10": "static analysis (custom MIR rules): decision-table extraction of inbound admission (affinity x limit x len>=limit normalised over operator forms), value-origin dataflow of key/len/limit, who-may-call the limit accessor (predicate helpers inlined into the path words), must-pass-through order at handler exit, who-may-write the known-peers map + exact replace/delete shape of its insert/remove, dataflow of the background-dial budget, select! arm preconditions (the accept arm is unconditional)",
  "C11": "static analysis (custom MIR rules): decision-table extraction of min(header, default) in both directions (call- and comparison-form, 3-case evaluation), sibling agreement, poll path words, layer wiring by value-origin + resolved generic arguments, who-may-call on the outbound stream open (only under the layer stack), ms-unit discipline and purity of Config accessors, who-may-use the parse result (error absorbed), liveness of synchronous lock guards across suspension points",
- "C12": "static analysis (custom MIR rules): must-pass-through in Drop, who-may-construct the stream wrapper, call-graph reachability (no spawn on the caller path), tokio::select! race arm words, JoinSet shutdown on all exits, watched-suspension-point rule over the request task's yields, closed-world who-may-call on task spawning, panic inventory of the request path",
+ "C12": "static analysis (custom MIR rules): must-pass-through in Drop, who-may-construct the stream wrapper, call-graph reachability (no spawn on the caller path), tokio::select! race arm words, JoinSet shutdown on all exits, watched-suspension-point rule over the request task's yields, closed-world who-may-call on task spawning, panic inventory of the request path, expected-zero who-may-call on APIs that take a resource out of RAII (forget / add_permits) in the tower layers",
  "C13": "static analysis (custom MIR rules): order-insensitive decision table of the eligibility predicate, value-origin dataflow of the backoff formula / rotation index / channel pairing / in-flight cap, drain-closure words, timer ownership (one interval created outside the loop), ms-unit discipline and purity of Config accessors, must-pass-through of the prompt removal at handler exit (re-evaluated)",
  "C14": "static analysis (custom MIR rules): path-event language of both certificate verifiers (name checks on the right operands, assertion only on the any()==true edge), vec! element dataflow of the name lists, SNI resolver on every path, SNI argument origin, who-may-write rustls config fields, stateful statics, exact stored-as-given dataflow of the name setters of both builders",
  "C15": "static analysis (custom MIR rules): who-may-call/construct framed codecs, value-origin dataflow of the limit, must-pass-through on the None edge against the dependency's default (read from its source), raw-IO who-may-call, call-graph confinement, who-may-write Config fields (immutable after build), serde attributes of the Config fields read from source (plain derived (de)serialisation), who-may-call on the codec's limit getter (no second size check)",
